@@ -24,6 +24,12 @@ pub struct HllCase {
     /// per node: the order (with repetitions) in which the transport delivers item indices;
     /// every node receives every item at least once
     pub deliveries: Vec<Vec<u32>>,
+    /// (node, delivery position, kind): something that must not change the registers happens before
+    /// that delivery. 0: merge with a sketch of another hasher (rejected, panics); 1: merge with a
+    /// sketch of another precision (rejected); 2: merge with an empty sketch; 3: merge with a clone
+    /// of itself; 4: a clone is taken, mutated and dropped
+    #[serde(default)]
+    pub disturb: Vec<(u32, u32, u8)>,
 }
 
 pub struct S2h;
@@ -111,7 +117,14 @@ impl Scenario for S2h {
             }
             deliveries.push(d);
         }
-        HllCase { b, hasher, items, deliveries }
+        let mut disturb = vec![];
+        if g.chance(1, 3) {
+            for _ in 0..g.range(1, 4) {
+                let node = g.usize(nodes);
+                disturb.push((node as u32, g.below(deliveries[node].len() as u64 + 1) as u32, g.below(5) as u8));
+            }
+        }
+        HllCase { b, hasher, items, deliveries, disturb }
     }
 
     fn execute(case: &HllCase, prop: &'static str) -> Outcome {
@@ -141,8 +154,46 @@ impl Scenario for S2h {
                 if !identity {
                     stats.fault("net_reorder");
                 }
-                for &ix in d {
+                for (pos, &ix) in d.iter().enumerate() {
                     step += 1;
+                    for &(_, _, kind) in case.disturb.iter().filter(|t| t.0 as usize == ni && t.1 as usize == pos) {
+                        let what = match kind {
+                            0 | 1 => {
+                                let mut h2 = case.hasher;
+                                h2.seed = h2.seed.wrapping_add(1);
+                                let mut other = if kind == 0 { Hll::with_hash(b, h2) } else { Hll::with_hash(if b > 4 { b - 1 } else { b + 1 }, case.hasher) };
+                                for x in 0..40u64 {
+                                    other.add_hashed(crate::rng::mix2(x, 0x5eed) | (x & 1)); // all ranks, all registers of small sketches
+                                }
+                                match guarded(|| h.merge(&other)) {
+                                    Caught::LibPanic(..) => stats.fault("rejected_merge"),
+                                    _ => stats.probe("mismatched_merge_returned"),
+                                }
+                                if kind == 0 { "a rejected merge with a sketch of another hasher" } else { "a rejected merge with a sketch of another precision" }
+                            }
+                            2 => {
+                                h.merge(&Hll::with_hash(b, case.hasher));
+                                "a merge with an empty sketch"
+                            }
+                            3 => {
+                                let c = h.clone();
+                                h.merge(&c);
+                                "a merge with a clone of itself"
+                            }
+                            _ => {
+                                let mut c = h.clone();
+                                c.add_hashed(u64::MAX);
+                                c.add_hashed(0);
+                                c.clear();
+                                "mutating and clearing a clone"
+                            }
+                        };
+                        if h.registers() != &inc[..] {
+                            let j = (0..m).find(|&j| h.registers()[j] != inc[j]).unwrap();
+                            viol.push(v("hll/registers-changed-without-add", step, format!("b = {}: {} changed register {} from {} to {}", b, what, j, inc[j], h.registers()[j])));
+                            return;
+                        }
+                    }
                     let it = match case.items.get(ix as usize) {
                         Some(it) => it,
                         None => continue,
@@ -245,6 +296,9 @@ impl Scenario for S2h {
                 c.items = keep.iter().map(|&i| case.items[i as usize].clone()).collect();
                 let map: std::collections::HashMap<u32, u32> = keep.iter().enumerate().map(|(new, &old)| (old, new as u32)).collect();
                 c.deliveries = case.deliveries.iter().map(|d| d.iter().filter_map(|x| map.get(x).copied()).collect()).collect();
+                for t in c.disturb.iter_mut() {
+                    t.1 = t.1.min(c.deliveries.get(t.0 as usize).map(|d| d.len().saturating_sub(1)).unwrap_or(0) as u32);
+                }
                 out.push(c);
             }
         }
@@ -252,6 +306,12 @@ impl Scenario for S2h {
             for i in 0..case.deliveries.len() {
                 let mut c = case.clone();
                 c.deliveries.remove(i);
+                c.disturb.retain(|t| t.0 as usize != i);
+                for t in c.disturb.iter_mut() {
+                    if t.0 as usize > i {
+                        t.0 -= 1;
+                    }
+                }
                 out.push(c);
             }
         }
@@ -270,12 +330,17 @@ impl Scenario for S2h {
             c.b = 4;
             out.push(c);
         }
+        for i in 0..case.disturb.len() {
+            let mut c = case.clone();
+            c.disturb.remove(i);
+            out.push(c);
+        }
         out
     }
 
     fn describe(case: &HllCase) -> Value {
         json!({"b": case.b, "hasher": case.hasher, "n_items": case.items.len(), "first_items": case.items.iter().take(12).collect::<Vec<_>>(),
-               "deliveries": case.deliveries.iter().map(|d| d.iter().take(16).cloned().collect::<Vec<u32>>()).collect::<Vec<_>>()})
+               "disturb": case.disturb, "deliveries": case.deliveries.iter().map(|d| d.iter().take(16).cloned().collect::<Vec<u32>>()).collect::<Vec<_>>()})
     }
 }
 
